@@ -365,6 +365,7 @@ func runC03(e *Env) {
 		return ""
 	}
 	hangs := 0
+	var unrepro []xferCase // cases that stalled once and completed when run again
 	vk.ParallelDo(len(cases), 16, func(i int) {
 		c := cases[i]
 		if k := knownClass(c); k != "" {
@@ -405,6 +406,9 @@ func runC03(e *Env) {
 			// back-off on the loaded machine does not
 			if o2 := runC03Case(e, lp, c); !o2.Res.Hung {
 				e.R.Count("hang_not_reproduced")
+				smu.Lock()
+				unrepro = append(unrepro, c)
+				smu.Unlock()
 				e.R.Inconcl(fmt.Sprintf("%s: the bounded-progress rule fired once, and the same case run again on fresh connections did not stall (send_err=%q recv_err=%q)", c.ID, errS(o2.Res.SendErr), errS(o2.Res.RecvErr)))
 				return
 			}
@@ -412,6 +416,14 @@ func runC03(e *Env) {
 		what := fmt.Sprintf("fault-free transfer did not complete: send_err=%q recv_err=%q hung=%v diff=%v", errS(o.Res.SendErr), errS(o.Res.RecvErr), o.Res.Hung, o.Diff)
 		e.R.Violate(c03Key(c, o), what, c, map[string]any{"tree": o.Tree, "result": o.Res.Summary(), "goroutines": o.Res.HangDump, "output_state_when_stopped": o.StateAtStop})
 	})
+	if len(unrepro) >= 3 {
+		// one stall that does not show again is weather (datagram loss under
+		// load); three different cases stalling in one run is a schedule-
+		// dependent defect that no single re-run can be expected to hit again
+		e.R.Violate("healthy-transfer-failed:hang:not-reproducible-but-repeated",
+			fmt.Sprintf("%d different fault-free transfers of this run stalled under the bounded-progress rule (each completed when run again)", len(unrepro)),
+			unrepro[0], map[string]any{"cases": unrepro})
+	}
 	runC03AfterAborts(e)
 	runNextToCancelled(e, lp, true)
 	e.R.SetExtra("hangs", hangs)
